@@ -169,6 +169,7 @@ func init() {
 		ID: "C08", Title: "Parsing, formatting and running are deterministic", Level: "model_checking",
 		Units: []Unit{evalUnit([]string{"evaluator/common.go", "evaluator/c08.go", "evaluator/c09.go", "evaluator/c02.go", "evaluator/c04.go", "evaluator/gen.go"},
 			Harness{Fn: "ZZC08Orders", Expect: []string{"orders-ok", "witness:end", "maprange:permuted:2", "maprange:permuted:3"}, MaxInstr: 40_000_000},
+			Harness{Fn: "ZZC08Repeat", Expect: []string{"repeat-ok", "repeat-rejected", "witness:end"}, MaxInstr: 40_000_000},
 			Harness{Fn: "ZZC08Seed", Expect: []string{"seed-ok", "witness:end", "stub:rand.Int31n", "stub:rand.Float64"}},
 			Harness{Fn: "ZZC08Corpus", Expect: []string{"corpus-ok", "witness:end"}, MaxInstr: 40_000_000},
 		), mainUnit([]string{"main/c05m.go"},
